@@ -60,6 +60,7 @@ class ModeStatistics:
         means: np.ndarray,
         covariances: np.ndarray,
         degrees_of_freedom: np.ndarray,
+        labels: np.ndarray = None,
     ):
         """
         Initialize ModeStatistics from precomputed parameters.
@@ -76,6 +77,9 @@ class ModeStatistics:
         self.means = np.asarray(means)
         self.covariances = np.asarray(covariances)
         self.degrees_of_freedom = np.asarray(degrees_of_freedom)
+        # Cluster label each mode was fitted from, in increasing order
+        # (None: mode k belongs to label k)
+        self.labels = None if labels is None else np.asarray(labels)
 
         # Ensure 2D shape for single mode case
         if self.means.ndim == 1:
@@ -111,6 +115,36 @@ class ModeStatistics:
     def n_dim(self) -> int:
         """Dimensionality of parameter space."""
         return self.means.shape[1]
+
+    def mode_index(self, assignments: np.ndarray, u: np.ndarray):
+        """
+        Map cluster labels of particles to indices of the modes fitted from them.
+
+        Modes are built only for the labels that occur among the training
+        particles, so a raw cluster label is not in general the index of its
+        mode. A label without a mode (a fitted cluster that attracted no
+        training particle) is reassigned to the mode with the nearest mean.
+
+        Returns
+        -------
+        index : np.ndarray
+            Index into the modes for each particle.
+        labels : np.ndarray
+            Cluster label of that mode for each particle (equal to
+            ``assignments`` wherever the label has a mode).
+        """
+        assignments = np.asarray(assignments)
+        if self.labels is None:
+            return assignments, assignments
+        index = np.clip(np.searchsorted(self.labels, assignments), 0, self.K - 1)
+        missing = self.labels[index] != assignments
+        if np.any(missing):
+            dist = np.linalg.norm(
+                np.asarray(u)[missing][:, np.newaxis, :] - self.means[np.newaxis, :, :],
+                axis=2,
+            )
+            index[missing] = np.argmin(dist, axis=1)
+        return index, self.labels[index]
 
     @classmethod
     def from_particles(
@@ -200,6 +234,7 @@ class ModeStatistics:
             means=np.array(means),
             covariances=np.array(covariances),
             degrees_of_freedom=np.array(degrees_of_freedom),
+            labels=unique_labels,
         )
 
     @classmethod
